@@ -424,6 +424,13 @@ func TestCheck(t *testing.T) {
 	if r.Replay != nil {
 		var c Case
 		r.DecodeReplay(&c)
+		if len(c.List) == 1 && strings.HasPrefix(c.List[0], "realdns:") {
+			var n int
+			fmt.Sscanf(c.List[0], "realdns:%d", &n)
+			kind, detail := executeRealDns(n)
+			record(r, c, kind, detail)
+			return
+		}
 		if len(c.List) == 1 && strings.HasPrefix(c.List[0], "forward:") {
 			kind, detail := executeForward(c.List[0])
 			record(r, c, kind, detail)
@@ -453,5 +460,6 @@ func TestCheck(t *testing.T) {
 		r.Progress(idx + 1)
 	}
 	forwardCases(r, len(all))
+	realDnsCases(r, len(all)+10)
 	r.Note("cases_total", len(all))
 }
